@@ -208,7 +208,8 @@ class Call:
             dtype = pd.api.types.CategoricalDtype(categories=categories, ordered=True)
             x = pd.Categorical(x).astype(dtype)
         else:
-            x = pd.Categorical(x)
+            # Declared order, observed levels: a category no row has is not a level of these data
+            x = pd.Categorical(x).remove_unused_categories()
 
         self.levels = x.categories.tolist()
 
